@@ -55,6 +55,48 @@ fn spec(label: &str, consts: AfConsts, twin: bool) -> AfSpec {
     }
 }
 
+/// Tick spacing 4 with tick groups of 4 ticks: the lowest tick (-443636) is a usable tick and a group boundary, so a pool that
+/// was driven onto the minimum price (tick -443637) sits in a tick group BELOW the lowest real one.
+fn min_edge_spec() -> AfSpec {
+    use crate::refmodel::MIN_TICK;
+    let mut s = spec("c14-min-edge-ts4", AfConsts { filter: 30, decay: 600, reduction: 5000, control: 99_999, max_acc: 350_000, group: 4, threshold: 4 }, false);
+    let n = 88 * 4;
+    let a0 = MIN_TICK.div_euclid(n);
+    s.tick_spacing = 4;
+    s.fee_tier_index = 1024 + 4;
+    s.sqrt_price = aw::price_of_tick((MIN_TICK + 40) as i64);
+    s.positions = vec![(MIN_TICK, MIN_TICK + 80, L), (MIN_TICK + 80, MIN_TICK + 400, L)];
+    s.arrays = vec![a0, a0 + 1, a0 + 2];
+    s
+}
+
+/// A fixed history on that pool, every step under the oracles of the exploration: down onto the minimum price, a pause longer
+/// than the filter period, back up (the reference is re-based on the group the pool sat in), and further swaps inside the
+/// filter period (which must be charged relative to exactly that stored reference).
+fn min_edge_case() -> Result<u64, (String, Vec<AOp>, String)> {
+    let s = min_edge_spec();
+    let (l0, w) = aw::build(&s);
+    let m = C14Model::with(&w, false);
+    let t = |d: i32| Tgt::Tick(crate::refmodel::MIN_TICK + d);
+    let seq = vec![
+        sw(true, true, HUGE, Tgt::None, true),
+        AOp::Clock(31),
+        sw(false, true, HUGE, t(12), true),
+        AOp::Clock(1),
+        sw(false, true, HUGE, t(26), false),
+        AOp::Clock(1),
+        sw(true, true, HUGE, t(9), true),
+        AOp::Clock(40),
+        sw(true, true, HUGE, Tgt::None, false),
+        sw(false, true, HUGE, t(41), true),
+    ];
+    let n = seq.len() as u64;
+    match run_prefix(&m, &l0, &seq) {
+        Ok(_) => Ok(n),
+        Err((ops, d)) => Err((s.label.clone(), ops, d)),
+    }
+}
+
 fn specs(thorough: bool) -> Vec<AfSpec> {
     let mut v = vec![
         // tiny maximum: saturates after 2.5 groups of 16 ticks; a spacing holds 4 groups
@@ -704,6 +746,18 @@ pub fn run(ctx: &Ctx) -> Report {
         }
     }
 
+    // ---- the lowest tick as a tick-group boundary ----
+    if r.violations.is_empty() {
+        match std::panic::catch_unwind(min_edge_case) {
+            Ok(Ok(n)) => r.guard("operations_on_the_pool_at_the_lowest_tick_group", n),
+            Ok(Err((label, ops, detail))) => {
+                let case = json!({"kind": "ops", "world": label, "root": "fresh", "ops": serde_json::to_value(&ops).unwrap()});
+                r.violation(format!("{label}/fresh/{}", serde_json::to_string(&ops).unwrap()), detail, case);
+            }
+            Err(_) => r.violation("c14-min-edge-ts4/world".into(), "world builder panicked (adaptive-fee pool with tick spacing 4 at the lowest tick)".into(), json!({"kind": "min_edge_world"})),
+        }
+    }
+
     // ---- Part A ----
     // quick: one pass, full alphabet (swaps, clock steps, set_adaptive_fee_constants), depth 3.
     // thorough: the full alphabet to depth 4, then swaps + clock steps only to depth 5 (the same roots, which include a
@@ -819,7 +873,7 @@ pub fn replay(case: &Value) -> Result<(), String> {
         Some("trade_enable") => trade_enable_case(case["offset"].as_i64().ok_or("offset")?, case["v2"].as_bool().ok_or("v2")?).map(|_| ()),
         Some("ops") => {
             let name = case["world"].as_str().ok_or("world")?;
-            let s = specs(true).into_iter().find(|s| s.label == name).ok_or("unknown world")?;
+            let s = specs(true).into_iter().chain(std::iter::once(min_edge_spec())).find(|s| s.label == name).ok_or("unknown world")?;
             let (l0, w) = aw::build(&s);
             let m = C14Model::new(&w);
             let path: Vec<AOp> = serde_json::from_value(case["ops"].clone()).map_err(|e| e.to_string())?;
